@@ -90,3 +90,17 @@ Example C13_nonvacuous :
   get_excerpt t 4 13 = Ok [12354; 128512; 98; 10] /\ get_excerpt t 4 6 = Panic /\
   (exists xs, print_msg_src t 7 11 true = Ok (2, 2, xs) /\ length xs = 1%nat).
 Proof. cbv zeta. repeat split. eexists. split; vm_compute; reflexivity. Qed.
+
+(* ===== span validity for every node the line/directive parser model produces (Model/AsmParser.v, tied to
+   asm::parser::parse by the astdump stream): every span lies inside the text, start <= end, both on character boundaries ===== *)
+From CA Require Import Model.Lexer Model.Parser Model.AsmAst Model.AsmParser Proofs.AsmParserP.
+Theorem C13_spans_valid : forall (t : text) (nodes : list anode) (w : walker) (n m : anode) (sp : span),
+  parse_file t = POk nodes w -> In n nodes -> sub m n -> In sp (node_spans m) ->
+  (fst sp <= snd sp /\ snd sp <= bytes_len t /\ on_boundary t (fst sp) /\ on_boundary t (snd sp))%N.
+Proof. exact AsmParserP.C13_spans_valid. Qed.
+Theorem C13_asm_spans_valid : forall (t : text) (nodes : list anode) (w : walker) (n m : anode) (e : xexpr) (asp : span) (body : list anode),
+  parse_file t = POk nodes w -> In n nodes -> sub m n -> In e (exprs_of m) -> In (asp, body) (gexpr_payloads e) -> vspan t asp.
+Proof. exact AsmParserP.C13_asm_spans_valid. Qed.
+(* a token's byte length is the length of a non-empty prefix of the text: the walker only stops on character boundaries *)
+Theorem C13_token_prefix : forall (t : list N) (k : tkind) (n : N), t <> nil -> decide_next_token t = (k, n) -> is_tok t n.
+Proof. exact AsmParserP.decide_next_token_prefix. Qed.
